@@ -83,11 +83,16 @@ class Obs:
 
 
 class H(Hooks):
-    def __init__(self):
+    def __init__(self, observe=None):
         self.viol = []
         self.probes = 0
+        self.observe = observe
 
     def quiescent(self, it):
+        if self.observe is not None:
+            # a "user interface" reading every public accessor (half of the
+            # cases): the engine's decisions must not depend on it
+            self.observe.quiescent(it)
         s = it.state
         if s.mode != Mode.TOURNAMENT or self.viol:
             return
@@ -97,6 +102,20 @@ class H(Hooks):
         hole = tuple(s.hole_cards[i])
         if len(hole) < 2 or not all(hole):
             return
+        # a hand with one rank or suit withheld ('AcK?') is not a shown hand
+        from pokerkit import Card
+        for j in (0, len(hole) - 1):
+            for half in (f'{hole[j].rank.value}?', f'?{hole[j].suit.value}'):
+                text = ''.join(half if x == j else repr(c)
+                               for x, c in enumerate(hole))
+                self.probes += 1
+                if s.can_show_or_muck_hole_cards(text):
+                    self.viol.append(V(
+                        ID, 'tournament_partial_show_accepted', 'half_known',
+                        f'tournament showdown (all_in={s.all_in_status},'
+                        f' street {s.street_index}): showing {text!r} for'
+                        f' {hole} accepted'))
+                    return
         for k in range(1, len(hole)):
             for sub in (hole[:k], hole[-k:]):
                 self.probes += 1
@@ -119,7 +138,7 @@ class H(Hooks):
 
 def budget(tier):
     if tier == 'quick':
-        return dict(examples=6000, wall=100)
+        return dict(examples=4000, wall=110)
     return dict(examples=120000, wall=1500)
 
 
@@ -159,7 +178,12 @@ def check(case, stats):
     cfg['auto_show'] = case.get('show_order', True)
     case = dict(case, config=cfg)
     obs = Obs()
-    h = H()
+    ob = None
+    if cfg.get('deck_seed', 0) % 2:
+        from .c15 import Observe
+        ob = Observe(cfg['deck_seed'] // 2)
+        stats.count('class:observed_run')
+    h = H(ob)
     res = run_case(case, observers=(obs,), hooks=h)
     stats.count('outcome:' + str(res.outcome))
     if res.outcome == 'discard':
